@@ -212,6 +212,41 @@ class SimPool(object):
             cls.counter['pool:' + cls.order] = cls.counter.get('pool:' + cls.order, 0) + 1
         return [results[i] for i in range(len(items))]
 
+    def _order(self, n):
+        idx = list(range(n))
+        cls = SimPool
+        cls.n_maps += 1
+        if cls.order == 'backward':
+            idx = idx[::-1]
+        elif cls.order == 'shuffled':
+            random.Random('%s/%s' % (cls.seed, cls.n_maps)).shuffle(idx)
+        elif cls.order == 'evens_first':
+            idx = idx[::2] + idx[1::2]
+        if cls.counter is not None and n > 1:
+            cls.counter['pool:' + cls.order] = cls.counter.get('pool:' + cls.order, 0) + 1
+        return idx
+
+    def imap(self, fn, iterable, chunksize=1):
+        # results in submission order, like Pool.imap
+        return iter(self.map(fn, iterable))
+
+    def imap_unordered(self, fn, iterable, chunksize=1):
+        # results in COMPLETION order, which is the simulator's choice
+        items = list(iterable)
+        for i in self._order(len(items)):
+            yield fn(items[i])
+
+    def apply_async(self, fn, args=(), kwds=None):
+        value = fn(*args, **(kwds or {}))
+
+        class _R(object):
+            def get(self_, timeout=None):
+                return value
+
+            def ready(self_):
+                return True
+        return _R()
+
     def close(self):
         self.closed = True
 
